@@ -76,8 +76,18 @@ def _worker(mir_path, repo_dir, modname, qname, seed):
     t0 = time.time()
     samples = []
 
+    class _SelfTestDone(Exception):
+        pass
+
     def run(v):
         r = q.fn(v, prog)
+        if os.environ.get("VERIF_REPLAY_SELFTEST") and q.replay is not None:
+            # template validation: render the native replay from a model of the first completed path of the UNCHANGED
+            # tree; the driver (mirsym/dev.py --selftest) requires it to PASS natively
+            m = v.model()
+            cex = {"inputs": _model_dict(v, m), "info": {}, "notes": {}, "log": [], "decisions": list(v.prefix)}
+            out["selftest_src"] = q.replay(cex, None, v)
+            raise _SelfTestDone()
         if not samples:
             try:
                 m = v.model()
@@ -95,6 +105,8 @@ def _worker(mir_path, repo_dir, modname, qname, seed):
             out["status"] = "proved"
             out["detail"] = "all %d paths (%d completed, %d infeasible/assumed away) satisfy the oracle" % (
                 vm.paths_done, completed, vm.paths_done - completed)
+    except _SelfTestDone:
+        out["status"] = "selftest"
     except Violation as v:
         out["status"] = "violated"
         out["detail"] = v.msg
